@@ -1846,6 +1846,29 @@ class IRGenerator:
             for route in routes:
                 namespace.add_route(route)
 
+        # An alias whose target mentions a data type that was filtered out
+        # would be a dangling reference: drop it together with its target.
+        retained = set()
+        for namespace in self.api.namespaces.values():
+            retained.update(namespace.data_types)
+        for namespace in self.api.namespaces.values():
+            namespace.aliases = [
+                alias for alias in namespace.aliases
+                if self._alias_target_retained(alias.data_type, retained)]
+            namespace.alias_by_name = {
+                alias.name: alias for alias in namespace.aliases}
+
+    def _alias_target_retained(self, data_type, retained):
+        if is_user_defined_type(data_type):
+            return data_type in retained
+        elif is_map_type(data_type):
+            return (self._alias_target_retained(data_type.key_data_type, retained) and
+                    self._alias_target_retained(data_type.value_data_type, retained))
+        elif is_alias(data_type) or is_list_type(data_type) or is_nullable_type(data_type):
+            return self._alias_target_retained(data_type.data_type, retained)
+        else:
+            return True
+
     def _find_dependencies(self, data_types):
         output_types = defaultdict(list)
         output_routes = defaultdict(set)
